@@ -15,6 +15,12 @@ pub mod walker;
 pub mod plant;
 #[path = "c14_corr.rs"]
 mod corr;
+#[path = "c14_guards.rs"]
+pub mod guards;
+#[path = "c14_numeric.rs"]
+pub mod numeric;
+#[path = "c14_corr_num.rs"]
+mod corr_num;
 
 use crate::driver::Driver;
 use crate::report::*;
@@ -261,7 +267,7 @@ pub fn generate(seed: u64, thorough: bool) -> Gen {
         Variant { prefix: 200, compressed: true },
         Variant { prefix: 1019, compressed: false },
     ];
-    let every = if thorough { 2 } else { 4 };
+    let every = if thorough { 2 } else { 6 };
     let mut add_v = |f: Frag, limit: usize, joint: usize, every: usize, rng: &mut Rng, docs: &mut Vec<Planted>| {
         let (d, ex) = f.enumerate_with(limit, joint, rng, &variants, every);
         exhaustive.push((f.name.to_string(), ex, d.len()));
@@ -295,7 +301,7 @@ pub fn generate(seed: u64, thorough: bool) -> Gen {
     }
     drop(add);
     add_v(stream_lengths(), 3_000, 0, if thorough { 1 } else { 2 }, &mut rng, &mut docs);
-    add_v(trailer_refs(), if thorough { 6_000 } else { 500 }, 0, 1, &mut rng, &mut docs);
+    add_v(trailer_refs(), if thorough { 6_000 } else { 300 }, 0, 1, &mut rng, &mut docs);
     let mut add = |f: Frag, limit: usize, joint: usize, rng: &mut Rng, docs: &mut Vec<Planted>| add_v(f, limit, joint, every, rng, docs);
     add(ref_chains(), if thorough { 80_000 } else { 600 }, 0, &mut rng, &mut docs);
     docs.extend(functions());
@@ -344,56 +350,39 @@ pub fn classify(p: &Planted, r: &DocResult) -> Option<(String, String)> {
         Outcome::Panic(m) => {
             let lf = loc_file(m);
             let file = lf.split(':').next().unwrap_or("").to_string();
-            let sig = if file == "font.rs" { "pending-D33".to_string() }
-                else if file == "crypt.rs" { "pending-D18".to_string() }
-                else if file == "enc.rs" && p.frag == "runlength" { "pending-D13".to_string() }
-                else if file == "enc.rs" && p.frag == "predictor" { "pending-D14".to_string() }
-                else { format!("panic@{}", lf) };
+            // (the pending-D33 / D18 / D13 / D14 classes are gone: those defects are repaired on main)
+            let _ = file;
+            let sig = format!("panic@{}", lf);
             Some((sig, format!("panic: {}", m)))
         }
         Outcome::Crash { status, stderr_tail } => {
             let kind = if stderr_tail.contains("overflowed its stack") { "stack-overflow" }
                 else if stderr_tail.contains("memory allocation of") || stderr_tail.contains("capacity overflow") { "alloc-failure" }
                 else { "abort" };
-            let sig = if p.frag == "font-widths" && kind == "alloc-failure" { "pending-D33".to_string() }
-                else if p.frag == "predictor" && kind == "alloc-failure" { "pending-D14".to_string() }
-                else { format!("{}:{}", kind, p.frag) };
+            let sig = format!("{}:{}", kind, p.frag);
             Some((sig, format!("process died ({}; {}): {}", kind, status, stderr_tail)))
         }
         Outcome::Timeout => {
-            let sig = if p.frag == "font-widths" { "pending-D33".to_string() } else { format!("timeout:{}", p.frag) };
+            let sig = format!("timeout:{}", p.frag);
             Some((sig, "time limit exceeded".to_string()))
         }
         Outcome::NotRun(m) => Some(("harness".to_string(), format!("not run: {}", m))),
     }
 }
 
-fn oracle_walk(seed: u64, thorough: bool, only: Option<(&str, bool, bool)>) -> Oracle {
-    let mut or = Oracle::new("c14.walk");
-    let gen = generate(seed, thorough);
-    for (name, ex, n) in &gen.exhaustive {
-        or.count(&format!("fragment {} docs={} refs-exhaustive={}", name, n, ex));
-    }
+/// walk one family of documents under every configuration and record the outcomes
+fn walk_family(or: &mut Oracle, family: &[Planted], configs: &[(bool, bool)], keep_first: usize, limits: Limits, seed: u64, thorough: bool, slowest: &mut u64, per_sig: &mut std::collections::BTreeMap<String, u32>) {
     let mut docs = vec![];
     let mut meta = vec![];
-    let mut witnesses = corr::witness_docs();
-    let n_witness_docs = witnesses.len();
-    witnesses.extend(gen.docs);
-    for p in witnesses.iter() {
-        for &(t, c) in CONFIGS.iter() {
-            if let Some((d, tt, cc)) = only {
-                if d != p.desc || tt != t || cc != c {
-                    continue;
-                }
-            }
+    for p in family.iter() {
+        for &(t, c) in configs.iter() {
             docs.push(Doc { bytes: p.bytes.clone(), tolerant: t, cached: c });
             meta.push((p, t, c));
         }
     }
-    let limits = Limits { max_objects: 24, time_limit_ms: 10_000, mem_limit_mb: 768, with_scan: true };
-    let res = walk_some(&docs, limits, if only.is_some() { docs.len() } else { n_witness_docs * CONFIGS.len() });
-    let mut slowest = 0u64;
-    let mut per_sig: std::collections::BTreeMap<String, u32> = Default::default();
+    let t0 = std::time::Instant::now();
+    let res = walk_some(&docs, limits, keep_first * configs.len());
+    or.count(&format!("family of {} documents (first: {}): {} walks in {} s", family.len(), family.first().map(|p| p.frag).unwrap_or("-"), docs.len(), t0.elapsed().as_secs()));
     let not_walked = res.iter().filter(|r| r.is_none()).count();
     if not_walked > 0 {
         or.count(&format!("not walked: the search stopped after {} time-outs / dead processes ({} documents left)", EXPENSIVE_FAILURES, not_walked));
@@ -402,7 +391,7 @@ fn oracle_walk(seed: u64, thorough: bool, only: Option<(&str, bool, bool)>) -> O
         let r = match r { Some(r) => r, None => continue };
         or.count(&format!("docs fragment={}", p.frag));
         or.count(&format!("config={}", cfg_name(*t, *c)));
-        slowest = slowest.max(r.ms);
+        *slowest = (*slowest).max(r.ms);
         let key = format!("{}|{}", p.desc, cfg_name(*t, *c));
         or.case(&key, true, || json!({"doc": p.desc, "config": cfg_name(*t, *c), "outcome": format!("{:?}", r.outcome), "calls": r.calls.len()}));
         for (k, v) in &r.calls {
@@ -416,10 +405,38 @@ fn oracle_walk(seed: u64, thorough: bool, only: Option<(&str, bool, bool)>) -> O
                 *n += 1;
                 // at most three replays per signature (the histogram has the totals)
                 if *n <= 3 { or.fail(&sig, &format!("{} [{}]: {}", p.desc, cfg_name(*t, *c), what),
-                    json!({"stream": "c14.walk", "seed": seed, "thorough": thorough, "doc": p.desc, "tolerant": t, "cached": c, "file_hex": crate::driver::hex(&p.bytes)})); }
+                    json!({"stream": "c14.walk", "seed": seed, "thorough": thorough, "doc": p.desc, "tolerant": t, "cached": c, "max_objects": limits.max_objects, "file_hex": crate::driver::hex(&p.bytes)})); }
             }
         }
     }
+}
+
+fn oracle_walk(seed: u64, thorough: bool) -> Oracle {
+    let mut or = Oracle::new("c14.walk");
+    let gen = generate(seed, thorough);
+    for (name, ex, n) in &gen.exhaustive {
+        or.count(&format!("fragment {} docs={} refs-exhaustive={}", name, n, ex));
+    }
+    let mut slowest = 0u64;
+    let mut per_sig: std::collections::BTreeMap<String, u32> = Default::default();
+    // family 1: witnesses, reference graphs, hand-laid documents, encrypted documents
+    let mut family = corr::witness_docs();
+    let n_witness_docs = family.len();
+    family.extend(gen.docs);
+    family.extend(numeric::layout_docs());
+    let limits = Limits { max_objects: 24, time_limit_ms: 10_000, mem_limit_mb: 768, with_scan: true };
+    walk_family(&mut or, &family, &CONFIGS, n_witness_docs, limits, seed, thorough, &mut slowest, &mut per_sig);
+    // encrypted documents with guard values: opening is what matters, two configurations (quick tier)
+    let crypt = numeric::crypt_docs(thorough);
+    let crypt_cfg: &[(bool, bool)] = if thorough { &CONFIGS } else { &[(false, false), (true, true)] };
+    walk_family(&mut or, &crypt, crypt_cfg, 0, limits, seed, thorough, &mut slowest, &mut per_sig);
+    // family 2: dense documents (grids of hostile streams / functions / fonts), with a larger object budget
+    let mut dense = numeric::predictor_docs(thorough);
+    dense.extend(numeric::ccitt_docs());
+    dense.extend(numeric::function_docs());
+    dense.extend(numeric::font_docs());
+    let limits = Limits { max_objects: numeric::DENSE_OBJECTS, time_limit_ms: 20_000, mem_limit_mb: 768, with_scan: false };
+    walk_family(&mut or, &dense, crypt_cfg, 0, limits, seed, thorough, &mut slowest, &mut per_sig);
     or.count(&format!("slowest-walk-ms<={}", (slowest / 100 + 1) * 100));
     or
 }
@@ -427,6 +444,10 @@ fn oracle_walk(seed: u64, thorough: bool, only: Option<(&str, bool, bool)>) -> O
 pub fn run(driver: &Driver, seed: u64, thorough: bool, replay: Option<&serde_json::Value>) -> Report {
     if let Some(r) = replay {
         maybe_child(r);
+    }
+    if std::env::var("VERIF_DEBUG").is_ok() {
+        // (main silences the panic hook; a panic of the harness itself is easier to find with a message)
+        std::panic::set_hook(Box::new(|info| { eprintln!("harness panic: {}", info); }));
     }
     let mut rep = Report::new("C14");
     if let Some(r) = replay {
@@ -438,7 +459,7 @@ pub fn run(driver: &Driver, seed: u64, thorough: bool, replay: Option<&serde_jso
             let frag_static: &'static str = Box::leak(frag.into_boxed_str());
             let p = Planted { frag: frag_static, ..p };
             let (t, c) = (r["tolerant"].as_bool().unwrap_or(false), r["cached"].as_bool().unwrap_or(false));
-            let res = walk_all(&[Doc { bytes: p.bytes.clone(), tolerant: t, cached: c }], Limits { max_objects: 24, time_limit_ms: 10_000, mem_limit_mb: 768, with_scan: true });
+            let res = walk_all(&[Doc { bytes: p.bytes.clone(), tolerant: t, cached: c }], Limits { max_objects: r["max_objects"].as_u64().unwrap_or(24), time_limit_ms: 20_000, mem_limit_mb: 768, with_scan: true });
             let mut or = Oracle::new("c14.walk");
             or.case(&p.desc, true, || json!({"doc": p.desc, "outcome": format!("{:?}", res[0].outcome)}));
             if let Some((sig, what)) = classify(&p, &res[0]) {
@@ -455,12 +476,18 @@ pub fn run(driver: &Driver, seed: u64, thorough: bool, replay: Option<&serde_jso
     // the oracle runs first: it is protected by child processes. If it saw the library overflow the stack
     // or hang outside the constructs owned by other packages, the in-process correspondence would die
     // with it: it is skipped then (the oracle failures are the verdict).
-    let or = oracle_walk(seed, thorough, None);
+    let t0 = std::time::Instant::now();
+    let or = oracle_walk(seed, thorough);
+    rep.notes.push(format!("seconds: oracle {:.1}", t0.elapsed().as_secs_f64()));
     let dangerous = or.histogram.keys().any(|k| k.starts_with("outcome=stack-overflow") || k.starts_with("outcome=timeout") || k.starts_with("outcome=alloc-failure") || k.starts_with("outcome=abort"));
     if dangerous {
         rep.notes.push("correspondence streams skipped: the walker saw the library overflow the stack / abort / hang".into());
     } else {
+        let t1 = std::time::Instant::now();
         rep.streams.extend(corr::streams(driver, seed, thorough));
+        let t2 = std::time::Instant::now();
+        rep.streams.extend(corr_num::streams(driver, seed, thorough));
+        rep.notes.push(format!("seconds: graph / layout streams {:.1}, numeric streams {:.1}", (t2 - t1).as_secs_f64(), t2.elapsed().as_secs_f64()));
     }
     rep.oracles.push(or);
     rep
